@@ -35,16 +35,30 @@ def main():
         else:
             a = a[1:]
     res = dict(property=prop, worktree=wt, seed_id=sid, ran=[])
+    saved = None
+    if wt == "saved":
+        # re-run a seed that is already stored under /verif/seeded/<sid>/
+        saved = os.path.join(V, "seeded", sid)
+        oldmeta = json.load(open(os.path.join(saved, "meta.json")))
+        wt = f"/tmp/seedsaved_{sid}"
+        shutil.rmtree(wt, ignore_errors=True)
+        os.makedirs(os.path.join(wt, "seed"))
+        shutil.copy(os.path.join(saved, "patch.diff"), os.path.join(wt, "seed", "patch.diff"))
+        json.dump({k: v for k, v in oldmeta.items() if k not in ("validation", "demo_location")}, open(os.path.join(wt, "seed", "meta.json"), "w"))
+        demo = oldmeta["demo_location"]
+        os.makedirs(os.path.dirname(os.path.join(wt, demo)) or wt, exist_ok=True)
+        shutil.copy(os.path.join(saved, os.path.basename(demo) + ".txt"), os.path.join(wt, demo))
     patch = os.path.join(wt, "seed", "patch.diff")
     if not os.path.exists(patch):
         print("no seed/patch.diff"); sys.exit(2)
-    # locate the demo in the tree
-    rc, o = sh("git status --porcelain", wt)
-    demos = [l[3:] for l in o.splitlines() if l.startswith("??") and l.endswith("_test.go")]
-    print("untracked tests:", demos)
-    if not demos:
-        print("no demonstration test found in the worktree"); sys.exit(2)
-    demo = demos[0]
+    if saved is None:
+        # locate the demo in the tree
+        rc, o = sh("git status --porcelain", wt)
+        demos = [l[3:] for l in o.splitlines() if l.startswith("??") and l.endswith("_test.go")]
+        print("untracked tests:", demos)
+        if not demos:
+            print("no demonstration test found in the worktree"); sys.exit(2)
+        demo = demos[0]
     demo_pkg = "./" + os.path.dirname(demo) if os.path.dirname(demo) else "."
     # work in a FRESH worktree of the current /repo HEAD (the harness in /verif follows /repo's hooks, which
     # may be newer than the seeding worktree): apply the patch there, copy the demo and all verif_*.go hook files
@@ -127,6 +141,8 @@ def main():
     meta["demo_location"] = demo
     json.dump(meta, open(os.path.join(out, "meta.json"), "w"), indent=1)
     sh(f"git -C /repo worktree remove --force {fresh}", "/")
+    if saved:
+        shutil.rmtree(wt if False else f"/tmp/seedsaved_{sid}", ignore_errors=True)
     print("DETECTED" if detected else "MISSED", "->", out)
 
 
